@@ -224,6 +224,59 @@ def always(ctx):
     return {"cli_output_file_history": stats}
 
 
+def heavy_program(lines):
+    """expensive to type-check (every call copies a wide generic function type), trivial otherwise"""
+    return ("wide :: fn a -> * do\n    ret (" + ", ".join(["a"] * 600) + ")\nend\nstart :: fn do\n"
+            + "".join("    x%d :: wide(%d)\n" % (i, i) for i in range(lines)) + "end\n")
+
+
+def clock_oracle(ctx):
+    """the same sources compiled by an undisturbed process and by one that only gets a few percent of the wall-clock
+    time (SIGSTOP / SIGCONT rhythm): same exit status and the same bytes.  Only run when an obligation broke (it takes
+    a minute or two)."""
+    import signal
+    import time
+    ok, out = vlib.build_sylt_bin()
+    if not ok:
+        return None
+    exe = os.path.join(vlib.BUILD, "target", "release", "sylt")
+    d = os.path.join(vlib.BUILD, "tmp", "c16-clock-%d" % os.getpid())
+    shutil.rmtree(d, ignore_errors=True)
+    os.makedirs(d)
+    src = os.path.join(d, "heavy.sy")
+    lines = 500
+    while True:                       # calibrate: about two seconds of undisturbed compilation
+        open(src, "w").write(heavy_program(lines))
+        t0 = time.time()
+        a = subprocess.run([exe, "--no-std", "-o", os.path.join(d, "a.lua"), src], capture_output=True, timeout=600)
+        dt = time.time() - t0
+        if dt >= 2.0 or lines >= 64000:
+            break
+        lines *= 2
+    p = subprocess.Popen([exe, "--no-std", "-o", os.path.join(d, "b.lua"), src], stdout=subprocess.PIPE, stderr=subprocess.PIPE)
+    t0 = time.time()
+    while p.poll() is None and time.time() - t0 < 600:
+        os.kill(p.pid, signal.SIGSTOP)
+        time.sleep(0.45)
+        os.kill(p.pid, signal.SIGCONT)
+        time.sleep(0.03)
+    if p.poll() is None:
+        p.kill()
+    bout, berr = p.communicate()
+    la = open(os.path.join(d, "a.lua"), "rb").read() if os.path.exists(os.path.join(d, "a.lua")) else b""
+    lb = open(os.path.join(d, "b.lua"), "rb").read() if os.path.exists(os.path.join(d, "b.lua")) else b""
+    res = None
+    if a.returncode != p.returncode or la != lb or a.stdout != bout:
+        res = {"class": "depends-on-the-clock", "files": {"/main.sy": "<heavy_program(%d) of tools/props/c16.py>" % lines},
+               "what": "the same sources: an undisturbed process exits %s with %d bytes of Lua (%.1f s), a process that is "
+                       "stopped 94%% of the time exits %s with %d bytes (%.0f s wall clock): %s"
+                       % (a.returncode, len(la), dt, p.returncode, len(lb), time.time() - t0, (bout + berr)[:300].decode("utf-8", "replace")),
+               "replay_cmd": "compile heavy_program(%d) once normally and once under a SIGSTOP/SIGCONT rhythm (tools/props/c16.py clock_oracle)" % lines,
+               "failing_inputs_found": 1}
+    shutil.rmtree(d, ignore_errors=True)
+    return res
+
+
 def search(ctx):
     if _cli.get("bad"):
         b = min(_cli["bad"], key=lambda x: len(x["first"]) + len(x["then"]))
@@ -238,7 +291,8 @@ def search(ctx):
         rare = rare_cases(ctx)
         bad += [rare[i] for i in run_rare(ctx, rare)[0]]
     if not bad:
-        return None
+        # an obligation broke (search only runs then) and the repetitions show nothing: does the result depend on time?
+        return clock_oracle(ctx)
     bad.sort(key=lambda c: sum(len(s) for s in c[1].values()))
     cls, files, flags = bad[0]
     line = noise_gen.case_line(files, flags=flags)
